@@ -1,7 +1,7 @@
 #!/bin/bash
-# apply a seeded patch to /repo, run the given checks (quick), undo. usage: seedtest.sh <patch> <ID>...
-patch=$1; shift
-cd /repo && git apply "$(realpath --relative-base=/ "$patch" 2>/dev/null | sed "s|^|/|;s|^//|/|")" 2>/dev/null || git apply "$patch" || { echo "patch does not apply"; exit 1; }
+# apply a seeded patch to /repo, run the given checks (quick), undo, rebuild. usage: seedtest.sh <patch> <ID>...
+patch=$(realpath "$1"); shift
+cd /repo && git apply "$patch" || { echo "patch does not apply"; exit 1; }
 cd /verif
 for c in "$@"; do
   out=$(timeout 1500 ./vc $c quick 2>&1); rc=$?
